@@ -1,6 +1,7 @@
 use quote::ToTokens;
 use syn::{
     parse::{Parse, ParseStream},
+    ext::IdentExt,
     punctuated::Punctuated,
     spanned::Spanned,
     token::Comma,
@@ -112,7 +113,12 @@ pub(crate) fn create_where_predicates_from_all_generic_parameters(
 fn mentions_generic_parameter(ty: &Type, params: &Punctuated<GenericParam, Comma>) -> bool {
     fn check(token_stream: proc_macro2::TokenStream, names: &[String]) -> bool {
         token_stream.into_iter().any(|token_tree| match token_tree {
-            proc_macro2::TokenTree::Ident(ident) => names.iter().any(|name| ident == name),
+            // `r#T` and `T` are the same name
+            proc_macro2::TokenTree::Ident(ident) => {
+                let ident = ident.unraw();
+
+                names.iter().any(|name| ident == name)
+            },
             proc_macro2::TokenTree::Group(group) => check(group.stream(), names),
             _ => false,
         })
@@ -121,8 +127,8 @@ fn mentions_generic_parameter(ty: &Type, params: &Punctuated<GenericParam, Comma
     let names: Vec<String> = params
         .iter()
         .filter_map(|param| match param {
-            GenericParam::Type(ty) => Some(ty.ident.to_string()),
-            GenericParam::Const(c) => Some(c.ident.to_string()),
+            GenericParam::Type(ty) => Some(ty.ident.unraw().to_string()),
+            GenericParam::Const(c) => Some(c.ident.unraw().to_string()),
             GenericParam::Lifetime(_) => None,
         })
         .collect();
@@ -143,6 +149,13 @@ fn erase_lifetimes(token_stream: proc_macro2::TokenStream) -> String {
             },
             proc_macro2::TokenTree::Ident(_) if after_apostrophe => {
                 after_apostrophe = false;
+            },
+            // the invisible group around a `macro_rules` fragment is not part of the type
+            proc_macro2::TokenTree::Group(group)
+                if group.delimiter() == proc_macro2::Delimiter::None =>
+            {
+                after_apostrophe = false;
+                s.push_str(&erase_lifetimes(group.stream()));
             },
             proc_macro2::TokenTree::Group(group) => {
                 after_apostrophe = false;
